@@ -80,11 +80,11 @@ theorem overlapSide_flat (f1 f2 : Sel) (h1 : ∃ al n, f1 = fld al n) (h2 : ∃ 
 /-! non-vacuity (schema and documents of `Props/C06_overlap_sound.lean`) -/
 example : Spec.overlappingFieldsCanBeMerged oSchema oDocOk :=
   (rule_overlapping_fields_can_be_merged_iff_partial oSchema Fixes.all rfl oDocOk
-    (parentsAgree_two' _ _ ⟨_, _, rfl⟩ ⟨_, _, rfl⟩) (overlapSide_flat _ _ ⟨_, _, rfl⟩ ⟨_, _, rfl⟩)
+    (parentsAgree_twoFields _ _ ⟨_, _, rfl⟩ ⟨_, _, rfl⟩) (overlapSide_flat _ _ ⟨_, _, rfl⟩ ⟨_, _, rfl⟩)
     (by unfold NoCrash; decide +kernel)).mp (by unfold Silent; decide +kernel)
 example : ¬ Spec.overlappingFieldsCanBeMerged oSchema oDocBad := fun h =>
   absurd ((rule_overlapping_fields_can_be_merged_iff_partial oSchema Fixes.all rfl oDocBad
-    (parentsAgree_two' _ _ ⟨_, _, rfl⟩ ⟨_, _, rfl⟩) (overlapSide_flat _ _ ⟨_, _, rfl⟩ ⟨_, _, rfl⟩)
+    (parentsAgree_twoFields _ _ ⟨_, _, rfl⟩ ⟨_, _, rfl⟩) (overlapSide_flat _ _ ⟨_, _, rfl⟩ ⟨_, _, rfl⟩)
     (by unfold NoCrash; decide +kernel)).mpr h) (by unfold Silent; decide +kernel)
 
 end PyGql.Props.C06
